@@ -156,3 +156,19 @@ if __name__ == '__main__':
         print(json.dumps({'nodes': n, 'edges': e, 'inits': i}, indent=1)[:3000])
     else:
         print(json.dumps(parse_sim_file(t), indent=1)[:3000])
+
+
+def parse_error_trace(out, flat_sets=True):
+    """Parse the counterexample TLC prints on stdout: list of (label, state)."""
+    res = []
+    blocks = re.split(r'\nState \d+: ', '\n' + out)
+    for b in blocks[1:]:
+        m = re.match(r'<(.*?)>\s*\n(.*?)(?:\n\s*\n|\Z)', b, re.S)
+        if not m:
+            continue
+        lab = re.sub(r' line \d+.*', '', m.group(1)).strip()
+        try:
+            res.append((lab, parse_state(m.group(2), flat_sets)))
+        except ValueError:
+            break
+    return res
